@@ -73,6 +73,17 @@ end
 rule "other3" salience 0 begin
   probe2(secret3)
 end
+rule "fnholder" salience 7 begin
+  hfn = pickdouble()
+  probe5(hfn(4), 8)
+end
+rule "fnholder2" salience 6 begin
+  hfn = picktriple()
+  probe5(hfn(4), 12)
+end
+rule "fncaller" salience -1 begin
+  probe4(hfn(4))
+end
 rule "writer" salience 9 begin
   Shared.V = Shared.V + 1
 end
@@ -92,7 +103,22 @@ end
 		seen3 = append(seen3, v)
 		mu.Unlock()
 	}
-	apis := map[string]interface{}{"once": once, "probe": probe, "hold": hold, "probe2": probe2, "probe3": probe3, "Shared": shared,
+	// locals holding FUNCTION values: calling a local function is resolved by name too
+	var probed4, wrong5 int64
+	var seen5 atomic.Value
+	probe4 := func(v int64) { atomic.AddInt64(&probed4, 1) }
+	var calls5 int64
+	probe5 := func(got, want int64) {
+		atomic.AddInt64(&calls5, 1)
+		if got != want {
+			atomic.AddInt64(&wrong5, 1)
+			seen5.Store(fmt.Sprintf("got %d, the rule's own function gives %d", got, want))
+		}
+	}
+	apis := map[string]interface{}{"probe4": probe4, "probe5": probe5,
+		"pickdouble": func() func(int64) int64 { return func(x int64) int64 { return 2 * x } },
+		"picktriple": func() func(int64) int64 { return func(x int64) int64 { return 3 * x } },
+		"once": once, "probe": probe, "hold": hold, "probe2": probe2, "probe3": probe3, "Shared": shared,
 		"off": func() bool { return false }, "nothing": func() {}}
 	dc := context.NewDataContext()
 	for n, v := range apis {
@@ -149,6 +175,15 @@ end
 			k.Violate("local-survives-fault/"+label, fmt.Sprintf("%s: a local assigned by another rule (one that then faulted with a non-boolean condition, or one that assigns it only in its else branch) was readable by a rule that never assigned it, %d time(s)", label, n),
 				map[string]interface{}{"rule_text": text, "scenario": label})
 		}
+		if n := atomic.SwapInt64(&probed4, 0); n > 0 {
+			k.Violate("function-local-leaks/"+label, fmt.Sprintf("%s: a rule that never assigned the local hfn could call it %d time(s) (the function value another rule / an earlier call kept in its own local hfn)", label, n),
+				map[string]interface{}{"rule_text": text, "scenario": label})
+		}
+		if n := atomic.SwapInt64(&wrong5, 0); n > 0 {
+			k.Violate("function-local-foreign/"+label, fmt.Sprintf("%s: a rule that assigned its own function to the local hfn called another one %d time(s): %v", label, n, seen5.Load()),
+				map[string]interface{}{"rule_text": text, "scenario": label})
+		}
+		k.Count("calls_of_function_valued_locals", atomic.SwapInt64(&calls5, 0))
 		k.Distinct("leak", label, len(got))
 	}
 	// (1) later calls on the same engine: first call assigns, the following must not see it
